@@ -10,6 +10,8 @@ use white_whale_std::pool_network::asset::PairType;
 use white_whale_std::pool_network::pair;
 
 pub const ACCTS: [&str; 6] = ["__pool__", "alice", "bob", "carol", "donor", OWNER];
+/// receiver index standing for the pool's own fee collector (a self-referential receiver; the model's swap does not depend on the receiver)
+pub const TO_COLLECTOR: usize = 99;
 pub const MIN_LIQ: u128 = 1000;
 
 #[derive(Clone, Debug)]
@@ -124,7 +126,7 @@ fn attr(resp: &AppResponse, key: &str) -> Option<u128> {
 
 pub fn exec(w: &mut PairWorld, op: &POp) -> Outcome<AppResponse> {
     let d = |o: &Option<u128>| o.map(dec);
-    let name = |i: usize, w: &PairWorld| -> String { if i == 0 { w.pair.to_string() } else { ACCTS[i].to_string() } };
+    let name = |i: usize, w: &PairWorld| -> String { if i == 0 { w.pair.to_string() } else if i == TO_COLLECTOR { COLLECTOR.to_string() } else { ACCTS[i].to_string() } };
     let r = std::panic::catch_unwind(std::panic::AssertUnwindSafe(|| match op {
         POp::Provide { who, d0, d1, tol, receiver } => { let rc = receiver.map(|r| name(r, w)); let rev = (*d0 ^ *d1) & 1 == 1; w.provide_ext(ACCTS[*who], *d0, *d1, d(tol), rc, rev, None) }
         POp::Withdraw { who, a } => w.withdraw(ACCTS[*who], *a),
@@ -195,13 +197,23 @@ pub fn run_case(out: &mut Out, prop: &str, case: &PairCase) -> Option<CaseResult
     let mut fees = case.fees;
     let mut first_deposit_done = false;
     let mut last_provide: Option<(usize, u128, u128, u128)> = None; // who, d0, d1, minted
+    let mut col_in = [0u128; 2];       // swap proceeds received by the fee collector as a swap receiver, per asset
     let mut res = CaseResult { obs: vec![], ok_ops: 0, kinds_ok: Default::default(), had_remainder: false };
     let replay = |k: usize, what: &str| json!({"case": case.json(), "failing_op_index": k, "detail": what});
     for (k, op) in case.ops.iter().enumerate() {
         // quote before a swap (C14)
         let sim = if let POp::Swap { dir, x, .. } = op { Some(w.simulate(*dir as usize, *x)) } else { None };
         let r = exec(&mut w, op);
-        let cur = snap(&w);
+        let mut cur = snap(&w);
+        // `col` = what the collector received FROM COLLECTIONS: swap proceeds addressed to the collector are kept apart
+        for i in 0..2 { cur.col[i] -= col_in[i]; }
+        let mut to_collector = 0u128;
+        let mut to_coll = [0u128; 2];
+        if let (Outcome::Ok(_), POp::Swap { dir, to: Some(TO_COLLECTOR), .. }) = (&r, op) {
+            let ai = if *dir { 0 } else { 1 };
+            to_collector = cur.col[ai] - prev.col[ai];
+            col_in[ai] += to_collector; cur.col[ai] -= to_collector; to_coll[ai] = to_collector;
+        }
         out.count(&format!("op:{}:{}", op.kind(), match &r { Outcome::Ok(_) => "ok".to_string(), Outcome::Err(c) => format!("err{}", c), Outcome::Panic(_) => "panic".into() }));
         match &r {
             Outcome::Ok(resp) => {
@@ -221,7 +233,7 @@ pub fn run_case(out: &mut Out, prop: &str, case: &PairCase) -> Option<CaseResult
                     POp::Swap { who, dir, to, .. } => {
                         let rc = to.unwrap_or(*who);
                         let ai = if *dir { 0 } else { 1 };
-                        pay[3] = if rc == 0 { 0 } else { cur.users[rc - 1][ai].wrapping_sub(prev.users[rc - 1][ai]) };
+                        pay[3] = if rc == 0 { 0 } else if rc == TO_COLLECTOR { to_collector } else { cur.users[rc - 1][ai].wrapping_sub(prev.users[rc - 1][ai]) };
                         if rc == 0 { pay[3] = attr(resp, "return_amount").unwrap_or(0); }
                         pay[4] = attr(resp, "spread_amount").unwrap_or(u128::MAX);
                         pay[5] = attr(resp, "swap_fee_amount").unwrap_or(u128::MAX);
@@ -285,7 +297,7 @@ pub fn run_case(out: &mut Out, prop: &str, case: &PairCase) -> Option<CaseResult
                         if cur.alltime[i] != prev.alltime[i] + charged[i] { out.monitor_fail("C07", "all-time collected counter != sum of charges", replay(k, "all-time collected")); }
                         if cur.burned[i] != prev.burned[i] + burned[i] { out.monitor_fail("C07", "all-time burned counter != sum of burn charges", replay(k, "all-time burned")); }
                         // burned amounts leave circulation; nothing else appears or disappears
-                        if cur.total(i) + Uint256::from(burned[i]) != prev.total(i) { out.monitor_fail("C07", "circulating amount changed by something other than the burn fee", replay(k, "conservation")); }
+                        if cur.total(i) + Uint256::from(burned[i]) + Uint256::from(to_coll[i]) != prev.total(i) { out.monitor_fail("C07", "circulating amount changed by something other than the burn fee", replay(k, "conservation")); }
                         if !matches!(op, POp::Collect { .. }) && sent != 0 { out.monitor_fail("C07", "collector received funds outside a collection", replay(k, "collector")); }
                     }
                     if let POp::Collect { .. } = op {
@@ -418,7 +430,7 @@ pub fn gen_case(rng: &mut Rng, len: usize, bias: &Bias) -> PairCase {
                 let p = (Uint256::from(o.max(1)) * Uint256::from(DEC) / Uint256::from(a.max(1))).to_string().parse::<u128>().unwrap_or(DEC);
                 Some(match rng.below(5) { 0 => 0, 1 => p, 2 => p / 2 + 1, 3 => p.saturating_mul(2), _ => p.saturating_add(p / 100) })
             } else { None };
-            let to = if rng.chance(1, 6) { Some(1 + rng.below(4) as usize) } else { None };
+            let to = if rng.chance(1, 6) { Some(1 + rng.below(4) as usize) } else if rng.chance(1, 12) { Some(TO_COLLECTOR) } else { None };
             POp::Swap { who, dir, x, belief, max_spread, to }
         } else if choice < 88 { POp::Collect { who: 1 + rng.below(5) as usize }
         } else if choice < 93 {
